@@ -2,7 +2,8 @@
 //! result; bounded): a few bytes that DECLARE a huge length (0xFFFFFFF0) and then end — an element of each of 12
 //! value representations in the three uncompressed transfer syntaxes, a file meta element, a pixel data fragment, a
 //! PDU — through the eager reader, from_reader on a complete file, the lazy reader (reading the value), the file
-//! meta reader and read_pdu. Every case runs in a child process whose address space is limited to 1 GiB
+//! meta reader and read_pdu; and image attributes that describe far more pixel data than any machine holds, through the
+//! pixel data decoders of five encapsulated transfer syntaxes. Every case runs in a child process whose address space is limited to 1 GiB
 //! (`ulimit -v`), because a failed allocation ABORTS the process (`memory allocation of N bytes failed`), which
 //! catch_unwind cannot see: a reader that reserves the declared length fallibly (as the file meta reader does with
 //! `try_reserve_exact`) or reads in bounded pieces returns an error; one that allocates the declared length up front
@@ -88,6 +89,33 @@ fn child(what: &str, ts_uid: &str, idx: usize) {
             let r = dicom_object::FileMetaTable::from_reader(&g[..]);
             println!("{}", if r.is_ok() { "OK" } else { "ERR" });
         }
+        "pixel_huge" => {
+            // image attributes that describe far more pixel data than any machine holds (Rows = Columns = Samples per Pixel = 65535,
+            // 16 bits, Number of Frames 1 / 16500 / 4294967295) over a 64-byte fragment, through the decoders that size their output
+            // buffer from the attributes (JPEG, RLE) and the others
+            use dicom_core::value::{PixelFragmentSequence, Value};
+            use dicom_core::{dicom_value, DataElement, PrimitiveValue, Tag, VR};
+            use dicom_pixeldata::PixelDecoder;
+            for nf in ["1", "16500", "4294967295"] {
+                let o = InMemDicomObject::from_element_iter([
+                    DataElement::new(Tag(0x0028, 0x0002), VR::US, dicom_value!(U16, [65535])),
+                    DataElement::new(Tag(0x0028, 0x0004), VR::CS, PrimitiveValue::from("MONOCHROME2")),
+                    DataElement::new(Tag(0x0028, 0x0008), VR::IS, PrimitiveValue::from(nf)),
+                    DataElement::new(Tag(0x0028, 0x0010), VR::US, dicom_value!(U16, [65535])),
+                    DataElement::new(Tag(0x0028, 0x0011), VR::US, dicom_value!(U16, [65535])),
+                    DataElement::new(Tag(0x0028, 0x0100), VR::US, dicom_value!(U16, [16])),
+                    DataElement::new(Tag(0x0028, 0x0101), VR::US, dicom_value!(U16, [16])),
+                    DataElement::new(Tag(0x0028, 0x0102), VR::US, dicom_value!(U16, [15])),
+                    DataElement::new(Tag(0x0028, 0x0103), VR::US, dicom_value!(U16, [0])),
+                    DataElement::new(Tag(0x7FE0, 0x0010), VR::OB, Value::from(PixelFragmentSequence::new(vec![], vec![vec![0u8; 64]]))),
+                ]);
+                if let Ok(f) = o.with_meta(dicom_object::FileMetaTableBuilder::new().transfer_syntax(ts_uid)) {
+                    let _ = f.decode_pixel_data();
+                    let _ = f.decode_pixel_data_frame(0);
+                }
+            }
+            println!("OK");
+        }
         "pdu" => {
             use dicom_ul::pdu::{read_pdu, MAXIMUM_PDU_SIZE};
             for (ty, strict) in [(0x04u8, true), (0x04, false), (0x01, false), (0x02, false), (0x55, false)] {
@@ -147,6 +175,9 @@ fn main() {
     }
     for what in ["fragment", "offset_table", "meta", "pdu"] {
         run(what, "1.2.840.10008.1.2.1", 0, "declared_length=4294967280".to_string());
+    }
+    for ts in ["1.2.840.10008.1.2.4.50", "1.2.840.10008.1.2.4.70", "1.2.840.10008.1.2.5", "1.2.840.10008.1.2.1.98", "1.2.840.10008.1.2.8.1"] {
+        run("pixel_huge", ts, 0, format!("ts={} Rows=Columns=SamplesPerPixel=65535", ts));
     }
     println!("EXHAUSTIVE unit=C05.alloc cases={} mismatches={}", cases, bad);
 }
